@@ -178,7 +178,7 @@ type realScript struct {
 	Ignored []string   `json:"ignored"`
 	Cycles  [][]editOp `json:"cycles"`
 	Real    bool       `json:"real"`
-	XDev    bool       `json:"xdev"` // roots on another device than the data directory (staging crosses devices)
+	XDev    bool       `json:"xdev"`    // roots on another device than the data directory (staging crosses devices)
 	CapBeta int        `json:"capBeta"` // >0: beta's maximum entry count = entries on beta after the first edits + CapBeta - 1
 }
 
